@@ -470,7 +470,7 @@ theorem binaryCliqueCore_nvars (G : SimpleG) (k : Nat) (sb : Bool) :
 
 /-- `clog2 N` is `⌈log₂ N⌉`: the least `b` with `N ≤ 2^b` -/
 theorem clog2_spec (N : Nat) : N ≤ 2 ^ clog2 N ∧ ∀ b, N ≤ 2 ^ b → clog2 N ≤ b :=
-  ⟨le_two_pow_clog2 N, clog2_le N⟩
+  Vars.clog2_spec N
 
 theorem binaryCliqueCore_wf (G : SimpleG) (k : Nat) (sb : Bool) : (binaryCliqueCore G k sb).WF :=
   wf_of_consIn (binaryCliqueCore_consIn G k sb)
@@ -930,31 +930,114 @@ theorem ramseyWitnessCore_opb (G : SimpleG) (k : Nat) (sb : Bool) (α : Assign) 
     (ramseyWitnessCore G k sb).toOPB.holds α = (ramseyWitnessCore G k sb).holds α :=
   Formula.toOPB_holds α _ (ramseyWitnessCore_wf G k sb)
 
-/-! ## T-C02.4, option `nontrivial` of `GraphIsomorphism` (defect D36: the option is never read) -/
+/-! ## T-C02.4, option `nontrivial` of `GraphIsomorphism`
+(the option was accepted and never read — defect D36, fixed in /repo by 9050d5b; the model follows the fixed code:
+with the option the clause `[-x_{u,u} for u in 1..|V₁| if u ≤ |V₂|]` is appended) -/
 
-theorem graphIsomorphismOpt_ignores_flag (G1 G2 : SimpleG) (b : Bool) :
-    graphIsomorphismOpt G1 G2 b = graphIsomorphism G1 G2 := rfl
+theorem graphIsomorphismOpt_nvars (G1 G2 : SimpleG) (b : Bool) :
+    (graphIsomorphismOpt G1 G2 b).nvars = G1.n * G2.n := rfl
 
-/-- THE DOCUMENTED STATEMENT for the option ("nontrivial: bool — forbid identical mapping"): with
-`nontrivial = true` the formula holds exactly under the encodings of the isomorphisms that move some vertex.
-It is FALSE of the code (counterexample below); the statement without the option is `graphIsomorphism_holds`. -/
-def IsoNontrivialDocumented (G1 G2 : SimpleG) : Prop :=
-  ∀ α, (graphIsomorphismOpt G1 G2 true).holds α = true ↔
-    (IsoSpec G1 G2 α ∧ ∃ u, V G1.n u ∧ ¬ Rel 1 G2.n α u u)
+theorem graphIsomorphismOpt_wf (G1 G2 : SimpleG) (b : Bool) : (graphIsomorphismOpt G1 G2 b).WF :=
+  wf_of_consIn (graphIsomorphismOpt_consIn G1 G2 b)
 
-/-- full statement: `∀ G1 G2 b, …`; proved for `nontrivial = false` -/
-theorem graphIsomorphismOpt_holds_partial (G1 G2 : SimpleG) (h1 : GoodGraph G1) (h2 : GoodGraph G2) (α : Assign) :
-    (graphIsomorphismOpt G1 G2 false).holds α = true ↔ IsoSpec G1 G2 α :=
-  graphIsomorphism_holds G1 G2 h1 h2 α
+/-- exactly what the extra clause says: some vertex `u ≤ min(|V₁|, |V₂|)` is not mapped to itself -/
+def MovesVertex (G1 G2 : SimpleG) (α : Assign) : Prop :=
+  ∃ u, V G1.n u ∧ u ≤ G2.n ∧ ¬ Rel 1 G2.n α u u
 
-/-- counterexample: the graph with one vertex; the identical mapping `x_{1,1}` satisfies the formula built with
-`nontrivial = true` (checked by `decide`) although it moves no vertex -/
-theorem graphIsomorphism_nontrivial_documented_false : ¬ IsoNontrivialDocumented oneVertex oneVertex := by
-  intro h
-  have hsat : (graphIsomorphismOpt oneVertex oneVertex true).holds (encode 1 1 1 [1]) = true := by decide
-  obtain ⟨_, u, ⟨a, b⟩, hu⟩ := (h _).1 hsat
-  have : u = 1 := by simp only [oneVertex] at b; omega
-  subst this
-  exact hu (by unfold Rel; decide)
+/-- specification theorem for both values of the option -/
+theorem graphIsomorphismOpt_holds (G1 G2 : SimpleG) (h1 : GoodGraph G1) (h2 : GoodGraph G2) (b : Bool) (α : Assign) :
+    (graphIsomorphismOpt G1 G2 b).holds α = true ↔ IsoSpec G1 G2 α ∧ (b = true → MovesVertex G1 G2 α) := by
+  have : (graphIsomorphismOpt G1 G2 b).holds α =
+      ((graphIsomorphism G1 G2).holds α && (if b then Con.holds α (notIdentityClause G1.n G2.n) else true)) := by
+    cases b <;> simp [Formula.holds, graphIsomorphismOpt, List.all_append]
+  rw [this, Bool.and_eq_true, graphIsomorphism_holds G1 G2 h1 h2]
+  cases b
+  · simp
+  · simp only [if_true, forall_const, notIdentityClause_holds]
+    unfold MovesVertex V Rel
+    constructor
+    · rintro ⟨h, u, a, c, d, e⟩; exact ⟨h, u, ⟨a, c⟩, d, by simp [e]⟩
+    · rintro ⟨h, u, ⟨a, c⟩, d, e⟩; exact ⟨h, u, a, c, d, by simpa using e⟩
+
+/-- the satisfying assignments are the encodings of the isomorphism tables — other than the identical table
+`[1, …, n]` when the option is on -/
+theorem graphIsomorphismOpt_holds_iff_table (G1 G2 : SimpleG) (h1 : GoodGraph G1) (h2 : GoodGraph G2) (b : Bool)
+    (α : Assign) :
+    (graphIsomorphismOpt G1 G2 b).holds α = true ↔
+      ∃ l, (IsIsoTable G1 G2 l ∧ (b = true → l ≠ verts G1.n)) ∧ EncL 1 G1.n G2.n α l := by
+  rw [graphIsomorphismOpt_holds G1 G2 h1 h2, ← graphIsomorphism_holds G1 G2 h1 h2,
+    graphIsomorphism_holds_iff_table G1 G2 h1 h2]
+  unfold MovesVertex V Rel
+  constructor
+  · rintro ⟨⟨l, hl, he⟩, hm⟩
+    refine ⟨l, ⟨hl, ?_⟩, he⟩
+    intro hb e
+    obtain ⟨u, ⟨a, c⟩, d, hu⟩ := hm hb
+    apply hu
+    rw [he.rel_iff a c a d, e, img_verts a c]
+  · rintro ⟨l, ⟨hl, hne⟩, he⟩
+    refine ⟨⟨l, hl, he⟩, ?_⟩
+    intro hb
+    have hn := isIsoTable_order_eq G1 G2 l hl
+    apply Classical.byContradiction
+    intro hno
+    apply hne hb
+    apply ext_img (by rw [hl.len, verts_length])
+    intro i a c
+    rw [hl.len] at c
+    rw [img_verts a c]
+    apply Classical.byContradiction
+    intro hi
+    exact hno ⟨i, ⟨a, c⟩, by omega, fun r => hi ((he.rel_iff a c a (by omega)).1 r)⟩
+
+/-- satisfiable iff an isomorphism exists — other than the identical mapping when the option is on -/
+theorem graphIsomorphismOpt_sat_iff (G1 G2 : SimpleG) (h1 : GoodGraph G1) (h2 : GoodGraph G2) (b : Bool) :
+    (∃ α, (graphIsomorphismOpt G1 G2 b).holds α = true) ↔
+      ∃ l, IsIsoTable G1 G2 l ∧ (b = true → l ≠ verts G1.n) := by
+  constructor
+  · rintro ⟨α, hα⟩
+    obtain ⟨l, hl, _⟩ := (graphIsomorphismOpt_holds_iff_table G1 G2 h1 h2 b α).1 hα
+    exact ⟨l, hl⟩
+  · rintro ⟨l, hl⟩
+    exact ⟨encode 1 G1.n G2.n l,
+      (graphIsomorphismOpt_holds_iff_table G1 G2 h1 h2 b _).2 ⟨l, hl, encode_encL hl.1.len hl.1.rng⟩⟩
+
+/-- one satisfying assignment per (non-identical) isomorphism -/
+theorem graphIsomorphismOpt_count (G1 G2 : SimpleG) (h1 : GoodGraph G1) (h2 : GoodGraph G2) (b : Bool) :
+    (∀ l, (IsIsoTable G1 G2 l ∧ (b = true → l ≠ verts G1.n)) →
+        (graphIsomorphismOpt G1 G2 b).holds (encode 1 G1.n G2.n l) = true) ∧
+    (∀ α, (graphIsomorphismOpt G1 G2 b).holds α = true →
+        ∃ l, (IsIsoTable G1 G2 l ∧ (b = true → l ≠ verts G1.n)) ∧ AgreeOn (G1.n * G2.n) α (encode 1 G1.n G2.n l)) ∧
+    (∀ l l', (IsIsoTable G1 G2 l ∧ (b = true → l ≠ verts G1.n)) → (IsIsoTable G1 G2 l' ∧ (b = true → l' ≠ verts G1.n)) →
+        AgreeOn (G1.n * G2.n) (encode 1 G1.n G2.n l) (encode 1 G1.n G2.n l') → l = l') :=
+  unary_counting (graphIsomorphismOpt G1 G2 b) G1.n G2.n rfl
+    (fun l => IsIsoTable G1 G2 l ∧ (b = true → l ≠ verts G1.n))
+    (graphIsomorphismOpt_holds_iff_table G1 G2 h1 h2 b) (fun _ hl => ⟨hl.1.len, hl.1.rng⟩)
+
+theorem graphIsomorphismOpt_models_equiv (G1 G2 : SimpleG) (h1 : GoodGraph G1) (h2 : GoodGraph G2) (b : Bool) :
+    Nonempty (Models (graphIsomorphismOpt G1 G2 b) ≃
+      {l : List Nat // IsIsoTable G1 G2 l ∧ (b = true → l ≠ verts G1.n)}) :=
+  unary_counting_equiv (graphIsomorphismOpt G1 G2 b) (graphIsomorphismOpt_wf G1 G2 b) G1.n G2.n rfl
+    (fun l => IsIsoTable G1 G2 l ∧ (b = true → l ≠ verts G1.n))
+    (graphIsomorphismOpt_holds_iff_table G1 G2 h1 h2 b) (fun _ hl => ⟨hl.1.len, hl.1.rng⟩)
+
+/-- non-vacuity (and regression of D36): on the one-vertex graph the identical mapping `x_{1,1}` satisfies the
+formula without the option and falsifies it with the option -/
+theorem graphIsomorphismOpt_oneVertex :
+    (graphIsomorphismOpt oneVertex oneVertex false).holds (encode 1 1 1 [1]) = true ∧
+    (graphIsomorphismOpt oneVertex oneVertex true).holds (encode 1 1 1 [1]) = false := by
+  constructor <;> decide
+
+/-- `GraphAutomorphism(G)` is `GraphIsomorphism(G, G, nontrivial=True)` -/
+theorem graphAutomorphism_eq_graphIsomorphismOpt (G : SimpleG) :
+    graphAutomorphism G = graphIsomorphismOpt G G true := graphAutomorphism_eq_opt G
+
+theorem graphIsomorphismOpt_cnf (G1 G2 : SimpleG) (b : Bool) (α : Assign) :
+    (graphIsomorphismOpt G1 G2 b).toCNF.holds α = (graphIsomorphismOpt G1 G2 b).holds α :=
+  Formula.toCNF_holds α _ (graphIsomorphismOpt_wf G1 G2 b)
+
+theorem graphIsomorphismOpt_opb (G1 G2 : SimpleG) (b : Bool) (α : Assign) :
+    (graphIsomorphismOpt G1 G2 b).toOPB.holds α = (graphIsomorphismOpt G1 G2 b).holds α :=
+  Formula.toOPB_holds α _ (graphIsomorphismOpt_wf G1 G2 b)
 
 end Cnfgen.C02
